@@ -292,7 +292,7 @@ func runC25(c *fw.Ctx, idx int) {
 	var buf bytes.Buffer
 	enc := ce.NewCTEEncoder(cfg)
 	enc.PrepareToEncode(&buf)
-	if fi, p := ev.Replay(enc, in); fi >= 0 {
+	if fi, p := replayAuto(enc, in); fi >= 0 {
 		detail["event"], detail["panic"] = fi, ev.PanicString(p)
 		c.Fail("encode-panic:"+region, detail)
 		return
